@@ -222,7 +222,8 @@ CHECKS["C13"] = {
     "level_text": "Every string of length <= 7 (quick, 3.9e7) / <= 8 (thorough, 4.7e8) over {a : / @ ? # [ ] . 0 9 SP} is passed to htp_parse_uri() and the port handling of "
                   "htp_normalize_parsed_uri(); re-joining the reported components with exactly their delimiters must reproduce the target minus trailing spaces (which implies order, "
                   "contiguity and non-overlap), a target starting with '/' gets no scheme/authority, and port_number is the decimal value iff the port text is all digits in 1..65535, "
-                  "otherwise -1 with the invalid-host indicator. Exhaustive for the alphabet and length; says nothing about other bytes or longer targets.",
+                  "otherwise -1 with the invalid-host indicator. Port literal layer: 22 values around 2^16, 2^31, 2^32, 2^63, 2^64 and values congruent to a valid port modulo "
+                  "2^32 / 2^64 x leading zeros / blanks / sign x 4 target forms. Exhaustive for the alphabet and length; says nothing about other bytes or longer targets.",
     "level_note": "No second parser is trusted: the oracle only re-joins what the library reported. Blanks around the port digits are ignored as the library documents. A binding slice through "
                   "the full request path is provided by C02 (absolute-URI targets) rather than here.",
     "design_ref": "DESIGN.md §6 C13",
@@ -260,8 +261,8 @@ CHECKS["C17"] = {
                   "{a, A, b, a NUL} and clear to depth 6 / 8, with every lookup (get, get_c, get_mem, get_index) for 7 probe keys after every op, vs an array multimap incl. the key-ownership "
                   "modes. Builder: all op sequences to depth 6 / 7. Strings: every (haystack, needle) pair of strings <= 4 over {a, A, b, NUL, SP} (6.1e5 pairs) through 35 compare / search / "
                   "prefix / append / trim / lower-case functions. Numbers: every string <= 5 / 6 over {0 1 9 a f F SP HT + - ; x} plus 875 boundary literals around 2^31, 2^32, 2^63, 2^64 "
-                  "through the five numeric parsers vs 128-bit arithmetic (error instead of wrapping). Whole run repeated under ASan+UBSan.",
-    "level_note": "index_of(empty, empty) is not judged (position 0 vs not found are both defensible); compare results are judged by sign; the port parser is covered by C13. *lastlen of "
+                  "through the six numeric parsers (mem_to_pint, positive_integer_whitespace, content-length, chunk-length, status, and the port of htp_parse_hostport) vs 128-bit arithmetic (error instead of wrapping). Whole run repeated under ASan+UBSan.",
+    "level_note": "index_of(empty, empty) is not judged (position 0 vs not found are both defensible); compare results are judged by sign; the port of a URI target (htp_normalize_parsed_uri) is covered by C13, the host:port parser here. *lastlen of "
                   "mem_to_pint is an internal cursor and not judged.",
     "design_ref": "DESIGN.md §6 C17",
     "rule": "BFS with state de-duplication for containers; odometer enumeration for primitives; distinct = container states + input classes",
@@ -303,7 +304,9 @@ CHECKS["C10"] = {
                   "request header, request chunk-size line, status line, response header, response chunk-size line) under EVERY single and double cut inside the line and byte-by-byte "
                   "delivery, where a run that does not end in ERROR must report the field whole (no silent truncation); 130 KiB folded-header pumps, 70/200 repetitions of one name, "
                   "max_tx in {1,2,5} with max_tx+4 pipelined requests / unmatched responses. Steady state: every <=1-deviation grammar exchange repeated 1000 (quick) / 10000 (thorough) "
-                  "times with auto-destroy, logging off and htp_connp_tx_freed() after each completion; live heap bytes at every TRANSACTION_COMPLETE must be EXACTLY equal from the 4th on.",
+                  "times with auto-destroy, logging off and htp_connp_tx_freed() after each completion; live heap bytes at every TRANSACTION_COMPLETE must be EXACTLY equal from the 4th on. Rounds: every ordered pair (A, B) of the 21 base exchanges "
+                  "that can be repeated on a connection (incl. body-less answers announcing a coding, coded bodies, multipart, 100-continue, pipelines) as the round A B tx_freed, 200 (quick) / 2000 (thorough) "
+                  "times, whole-message and token-by-token, request decompression off / on: the heap at each TRANSACTION_COMPLETE must equal the value one round earlier.",
     "level_note": "The heap measure counts bytes requested through malloc/calloc/realloc/strdup inside libhtp (zlib's own allocations are outside). Exact equality is deliberate: the allocator "
                   "wrapper is deterministic and a tolerance would hide slow leaks.",
     "design_ref": "DESIGN.md §6 C10",
@@ -314,7 +317,9 @@ CHECKS["C10"] = {
     "jobs": lambda tier: [J("statemc", "plain", ["--alphabet", "micro", "--depth", "4" if tier == "quick" else "5", "--cfg", "2"]),
                           J("statemc", "plain", ["--alphabet", "micro", "--depth", "3" if tier == "quick" else "4", "--cfg", "5"]),
                           J("statemc", "plain", ["--alphabet", "macro", "--depth", "5" if tier == "quick" else "6", "--cfg", "2"]),
-                          J("cutmc", "plain", ["--mode", "limits"]), J("cutmc", "asan", ["--mode", "limits", "--steady-n", "200"])] + _edits(tier, cfgs=(2, 5)),
+                          J("cutmc", "plain", ["--mode", "limits"]), J("cutmc", "asan", ["--mode", "limits", "--steady-n", "200"]),
+                          # rounds of two base exchanges (every ordered pair of the repeatable bases) + tx_freed: heap at each TRANSACTION_COMPLETE equals the value one round earlier
+                          J("cutmc", "plain", ["--mode", "steady"]), J("cutmc", "asan", ["--mode", "steady", "--steady-n", "40"])] + _edits(tier, cfgs=(2, 5)),
 }
 
 CHECKS["C01"] = {
@@ -387,7 +392,7 @@ CHECKS["C11"] = {
     "technique": "exhaustive product enumeration of ambiguity triggers x spellings x header orders x cut positions through the real request path",
     "level_text": "12 ambiguity triggers (TE:chunked+CL in three list forms, CL twice same/different, folded CL, TE:chunked on HTTP/1.0, unparseable CL x4, unsupported TE x3, URI host / port != "
                   "Host, no Host on 1.1, 8 invalid Host headers, 8 invalid URI hosts) plus a negative control are combined with the full product of header-name casing {lower, UPPER, Mixed}, "
-                  "optional white space before/after the value, ALL permutations of the header lines, and (thorough) token casing and asymmetric white space; every request is delivered "
+                  "optional white space before/after the value and between the field name and the colon (none, SP, SP HT, HT SP SP), ALL permutations of the header lines, and (thorough) token casing and asymmetric white space; every request is delivered "
                   "whole, with every single cut inside the header block, and byte by byte. The indicator the statement names must be set, chunked framing used when chunked is present; the "
                   "control must raise none of the indicators.",
     "level_note": "Unparseable Content-Length is taken as 'no decimal number at all or a value that does not fit' (x, empty, abc, 20 nines); values with leading junk such as -1 are parsed "
